@@ -137,7 +137,7 @@ func arrayWeights() map[string]int {
 	return map[string]int{
 		"a.append": 14, "a.insert": 14, "a.set": 10, "a.remove": 12, "a.get": 8, "a.oob": 3,
 		"settype": 1, "count": 2, "popall": 1, "reget": 2,
-		"commit": 4, "dropcache": 2, "reopen": 2, "new": 1, "a.fill": 2, "a.drain": 2, "failstor": 2, "probe.removed": 2,
+		"commit": 4, "dropcache": 2, "reopen": 2, "new": 1, "a.fill": 2, "a.drain": 2, "failstor": 2, "bulk.arr": 1, "probe.removed": 2,
 	}
 }
 
@@ -145,7 +145,7 @@ func mapWeights() map[string]int {
 	return map[string]int{
 		"m.set": 26, "m.remove": 12, "m.get": 8, "m.has": 4,
 		"settype": 1, "count": 2, "popall": 1, "reget": 2,
-		"commit": 4, "dropcache": 2, "reopen": 2, "new": 1, "m.fill": 2, "m.drain": 2, "failstor": 2, "probe.removed": 2,
+		"commit": 4, "dropcache": 2, "reopen": 2, "new": 1, "m.fill": 2, "m.drain": 2, "failstor": 2, "bulk.map": 2, "probe.removed": 2,
 	}
 }
 
